@@ -89,7 +89,8 @@ def run(ctx):
     rng = ctx.rng
 
     def occ(n=None, hi=6):
-        n = int(rng.integers(0, 13)) if n is None else n
+        if n is None:
+            n = int(rng.integers(0, 13)) if rng.random() < 0.95 else int(rng.integers(13, 40))
         return [int(x) for x in rng.integers(0, hi + 1, size=n)]
 
     def labels(n=None):
